@@ -542,7 +542,7 @@ func TestVfCodec(t *testing.T) {
 				text = c.uri(&a)
 			}
 			c.run(id, vfAddrCls(&a), h, text)
-			if h == "Route" && a.Form == "nameaddr" && k%3 == 0 {
+			if h == "Route" && a.Form == "nameaddr" {
 				c.runAfterUse(id, vfAddrCls(&a), "Route", c.addr(&a)+c.pick(",", ", ")+c.addr(&a)+c.pick(",", " , ")+c.addr(&a))
 			}
 		}
